@@ -21,7 +21,7 @@ class C06:
                     for code in codes:
                         addr = base + code
                         a, b, c, d = (code >> 9) & 7, (code >> 6) & 7, (code >> 3) & 7, code & 7
-                        x = rng.randrange(2)
+                        x = (code >> 12) & 1
                         id13 = F.id13_of_squawk(a, b, c, d, x)
                         exp[addr] = 1000 * a + 100 * b + 10 * c + d
                         if df == 5:
@@ -98,8 +98,8 @@ class C06:
                 rep.nontriv(("other", kinds[i % len(kinds)], u, r))
 
     def explore(self, rep, run, rng, tier, driver_ok):
-        codes = list(range(4096))  # all 4 octal digits; X bit random
-        self.sweep(rep, run, rng, codes, "all 4096 squawks x X bit random x DF5/DF21 x -U/-R x first/later")
+        codes = list(range(8192))  # four octal digits and the X bit
+        self.sweep(rep, run, rng, codes, "all 8192 ID13 fields x DF5/DF21 x -U/-R x first/later frame")
         if tier == "thorough":
             for _ in range(3):
                 self.sweep(rep, run, rng, codes, "repeat with fresh payloads")
